@@ -89,9 +89,9 @@ Theorem INT_code_end_to_end :
        (exists calls : list F.idp_call,
           r_calls resp = map CIdp calls /\
           (FP.refreshed_ok now_s s0 (an_refresh an) s calls \/
-           FP.validated_ok k now_s s0 (an_validate an) s calls))) /\
+           FP.validated_ok (fkind k) now_s s0 (an_validate an) s calls))) /\
     r_status resp = 302 /\
-    (forall (q' : request) (o' : oracles) (an' : answers) (now_ns' : Z) (slug' : str) (k' : F.pkind) (c : str),
+    (forall (q' : request) (o' : oracles) (an' : answers) (now_ns' : Z) (slug' : str) (k' : akind) (c : str),
      routed d q' slug' k' B.p_redeem ->
      redeem_request_ok d q' ->
      B.presented_code (inner q' B.p_redeem) = c ->
@@ -375,7 +375,7 @@ Theorem INT_adapter_sign_in :
    else
     of_flow_sign_in r (o_query_ok o (redirect_value r)) (redirect_value r)
       (if gates_all d o now_ns r then Some HSignIn else None)
-      (F.sign_in_route lower (fcfg d) p (now_ns / ns) (si_request_of d o now_ns r)
+      (F.sign_in_route lower (fcfg d) (fkind p) (now_ns / ns) (si_request_of d o now_ns r)
          (cookie_of d o (lookup slug (q_sess q))) (an_refresh an) (an_validate an))).
 Proof. exact sign_in_adapter. Qed.
 Print Assumptions INT_adapter_sign_in.
